@@ -8,7 +8,7 @@
 (* replayed on the real parser.                                                                       *)
 EXTENDS Xml, Json
 
-CONSTANTS Dev, Which       \* Which: "shapes" | "decorated"
+CONSTANTS Dev, Which       \* Which: "shapes" | "decorated" | "witness" (two trees that need single-pass decoding)
 VARIABLES t
 
 A == <<97>>  B == <<98>>  X == <<120>>
@@ -33,7 +33,8 @@ SmallLeaf == Deco({A, B}, {{}, {<<X, <<38, 108, 116, 59>>>>}}, {<<>>, <<116>>}, 
 Decorated == Deco({A}, AttrSets, {<<>>, <<116>>},
                   {<<>>} \cup {<<x>> : x \in BigLeaf} \cup {<<x, y>> : x \in SmallLeaf, y \in SmallLeaf})
 
-TreeSet == IF Which = "shapes" THEN Shapes ELSE Decorated
+Witness == Deco({A}, {{<<X, <<38, 108, 116, 59>>>>}}, {<<>>, <<38, 97, 109, 112, 59>>}, {<<>>})
+TreeSet == IF Which = "shapes" THEN Shapes ELSE IF Which = "witness" THEN Witness ELSE Decorated
 TInit == t \in TreeSet
 TNext == UNCHANGED t
 
